@@ -91,6 +91,10 @@ def check(case):
             for i in range(N):
                 cnt["rows"] += 1
                 row = df_a.loc[(t, i)]
+                bad = simcheck.invalid_labels(spec, row, list(spec.states))
+                if bad:
+                    msgs.append(f"(t={t}, agent={i}): state " + "; ".join(bad))
+                    continue
                 idx = []
                 on = True
                 for s in ref.order:
